@@ -546,6 +546,19 @@ class DiskCache:
         return raw
 
 
+def _hash_number(value) -> int:
+    """
+    Hash a plain number stored next to the arrays. The builtin
+    `hash` can not tell common values apart: `hash(-1.0) == hash(-2.0)`.
+    """
+    if isinstance(value, (bool, int, np.integer)):
+        text = str(int(value))
+    else:
+        text = repr(float(value))
+    # keep the result inside the range of an int64
+    return hash_fast(text.encode("utf-8")) >> 1
+
+
 class DataStore(Mapping):
     """
     A class to store multiple numpy arrays and track them all
@@ -690,7 +703,7 @@ class DataStore(Mapping):
         return hash_fast(
             np.array(
                 [
-                    hash(v)
+                    _hash_number(v) if isinstance(v, (int, float, np.number)) else hash(v)
                     for v in self.data.values()
                     if v is not None and (not hasattr(v, "__len__") or len(v) > 0)
                 ],
